@@ -6,7 +6,8 @@
 From Coq Require Import List ZArith Bool.
 From RtoscV Require Import Match.PatSpec Match.MatchModel Ports.NameModel Ports.PathModel Ports.WalkModel
      Ports.WalkProofs Ports.WalkRegress Ports.DecProofs Ports.EnumProofs
-     Ports.DispatchModel Ports.DispatchProofs Ports.TreeProofs Ports.DispatchWalk.
+     Ports.DispatchModel Ports.DispatchProofs Ports.TreeProofs Ports.DispatchWalk
+     Ports.LookupGen Ports.NamesModel Ports.NamesOk.
 Import ListNotations.
 Local Open Scope Z_scope.
 
@@ -60,7 +61,8 @@ Theorem C09_pruning : forall walk_sub rt ids i qn qm qs buf,
   let b' := if last_is_slash b then b else b ++ [47] in
   step_port walk_sub rt ids i (Port qn qm (Some qs)) buf =
   match rt with
-  | Some o => if o_null o b' || o_disabled o b' then WOk [] b'
+  | Some o => if o_null o b' || o_disabled o b'
+              then WOk (skipped_reports rt ids i (Port qn qm (Some qs)) b') b'
               else walk_sub (Port qn qm (Some qs)) (ids ++ [i]) b'
   | None => walk_sub (Port qn qm (Some qs)) (ids ++ [i]) b'
   end.
@@ -74,7 +76,7 @@ Theorem C09_pruning_enumerated : forall walk_sub rt ids i cs a m qs buf,
   Forall comp_wf cs -> cs <> [] -> args_wf a ->
   let q := Port (flatten (comps_segs cs) ++ a) m (Some qs) in
   step_port walk_sub rt ids i q buf =
-  run_all (fun b => if pruned rt b then WOk [] b else walk_sub q (ids ++ [i]) b)
+  run_all (fun b => if pruned rt b then WOk (skipped_reports rt ids i q b) b else walk_sub q (ids ++ [i]) b)
           (map (fun x => buf ++ x) (expand (comps_segs cs))) [] buf.
 Proof. exact step_port_subtree. Qed.
 
@@ -151,3 +153,64 @@ Theorem C09_dispatchable_nonvacuous :
   (exists out b, walk None (map render_port ex_d) [] = WOk out b /\
                  In ([0%nat; 0%nat], [47; 97; 49; 49; 47; 99; 49; 47; 120]) out /\ length out = 24%nat).
 Proof. exact ex_d_ok. Qed.
+
+(* The same with a DECIDABLE hypothesis in place of dok / table_disjoint:
+   names_ok root = true (coq/Ports/NamesModel.v; evaluated on every generated
+   tree by the tie): names of the macro shape, literal text without digits, and
+   the keys of the ports of every table - the path part with each '#N' replaced
+   by '#' - pairwise not prefixes of one another.  table_disjoint follows by
+   C05's soundness direction (whatever a name matches spells it, C05_no_spurious)
+   and the shape of an address (its digit runs collapsed to '#'). *)
+Theorem C09_dispatchable_names_ok : forall hp tid root id a ty o,
+  names_ok root = true -> tree_ok (to_tree hp tid root) ->
+  forall out b, walk None (map render_port root) [] = WOk out b ->
+  In (id, a) out -> leaf_admits root id ty ->
+  let t := to_tree hp tid root in
+  rev (log (dispatch t a ty true o)) = chain id t (strip a) ty o (Some [47]) /\
+  rev (log (dispatch t a ty false o)) = chain id t (strip a) ty o None /\
+  matches (dispatch t a ty true o) = 1 /\
+  leaf_count (chain id t (strip a) ty o (Some [47])) = 1 /\
+  length (chain id t (strip a) ty o (Some [47])) = length id.
+Proof. exact walk_dispatchable_names. Qed.
+
+Theorem C09_names_ok_sound : forall root, names_ok root = true ->
+  Forall sport_wf root /\ Forall dok root /\ table_disjoint root /\ Forall lok root /\ lookup_disjoint root.
+Proof. exact names_ok_sound. Qed.
+
+(* names_ok holds for { "xa", "xb#2/y#11:i", "c#12/" -> { "xa:T:F", "d" } } (siblings sharing
+   first characters), fails for { a#4b, a01b } and for { x, xy } *)
+Theorem C09_names_ok_nonvacuous :
+  names_ok ex_names = true /\
+  names_ok [SPort [Lit [97]; Enum 4; Lit [98]] [] None None;
+            SPort [Lit [97; 48; 49; 98]] [] None None] = false /\
+  names_ok [SPort [Lit [120]] [] None None;
+            SPort [Lit [120; 121]] [] None None] = false /\
+  (exists out b, walk None (map render_port ex_names) [] = WOk out b /\ length out = 47%nat /\
+                 In ([2%nat; 0%nat], [47; 99; 49; 49; 47; 120; 97]) out) /\
+  apropos (map render_port ex_names) [47; 99; 49; 49; 47; 120; 97] = AFound [2%nat; 0%nat].
+Proof. exact ex_names_ok. Qed.
+
+(* Observation (not a theorem about every tree): a multi-component sub-tree
+   name ("a/b/") paired with the macro recursion callback (rRecurCb, whose SNIP
+   strips ONE component) is walked as /a/b/x but dispatches to no leaf - the
+   shape C09_dispatchable excludes; names_ok is false on it.  Reproduced on the
+   real code: corpus/C09/defects.txt (kind X).  The macros themselves cannot
+   produce such a name (rRecur(name) stringifies a C identifier); a
+   hand-written callback that strips as many components as the name has (the
+   harness's kind M) dispatches them. *)
+Theorem C09_multicomponent_macro_refuted :
+  walk None (map render_port ex_multi) [] = WOk [([0%nat; 0%nat], [47; 97; 47; 98; 47; 120])] [47] /\
+  (let d := dispatch (to_tree no_hash_search one_id ex_multi) [47; 97; 47; 98; 47; 120] [] true 0 in
+   matches d = 0 /\ leaf_count (log d) = 0 /\ length (log d) = 1%nat) /\
+  names_ok ex_multi = false.
+Proof. exact multicomponent_macro_refuted. Qed.
+
+(* regression witness: walk_ports_recurse0 before the "fix:" commit wrote a '/'
+   behind every index, so the sub-tree name a#2b/ was walked as /a0/b/, /a1/b/
+   (addresses it does not match); repaired: /a0b/, /a1b/ *)
+Theorem C09_index_slash_pinned_refuted :
+  recurse0_pinned 6 probe slash_name [47] [47] =
+    WOk [([0%nat], [47;97;48;47;98;47]); ([0%nat], [47;97;49;47;98;47])] [47;97;49;47;98;47] /\
+  recurse0 6 probe slash_name [47] [47] =
+    WOk (map (fun a => ([0%nat], 47 :: a)) (expand [Lit [97]; Enum 2; Lit [98; 47]])) [47;97;49;98;47].
+Proof. exact recurse0_slash_pinned_refuted. Qed.
